@@ -114,7 +114,13 @@ def plan_case(ctx, rng, k, drv):
     for _ in range(n):
         nums.append(cur)
         cur += 1 + (rng.choice([1, 2, 5, 30]) if (rng.random() < 0.15 and k >= 2) else 0)
-    nums = [x for x in nums if x <= (32766 if fmt == "podLac" else 14998)] or [n0]
+    nums = [x for x in nums if x <= (32767 if fmt == "podLac" else 14998)] or [n0]
+    if fmt == "podLac" and n0 == 32600 and rng.random() < 0.5:
+        # ... ending EXACTLY at the largest number the signed 16-bit field holds (before fix f795ded the line range of
+        # the correction, `max_line + 1`, wrapped there and the lines before the first one were never computed)
+        sh = 32767 - max(nums)
+        nums = [x + sh for x in nums]
+        n0 += sh
     if len(nums) > 6 and rng.random() < 0.15 and k >= 2:
         i = rng.randrange(1, len(nums) - 2)          # two neighbouring records stored in the wrong order
         nums[i], nums[i + 1] = nums[i + 1], nums[i]
